@@ -13,6 +13,7 @@ pub open spec fn spre(a: Seq<bool>, b: Seq<bool>) -> bool {
 }
 
 /// lexicographic order on bit strings, a prefix sorts before everything it covers
+#[verifier::opaque]
 pub open spec fn lex_lt(a: Seq<bool>, b: Seq<bool>) -> bool {
     spre(a, b) || exists|k: int| #![trigger a[k]]
         0 <= k < a.len() && k < b.len() && !a[k] && b[k]
@@ -67,6 +68,10 @@ pub trait Prefix: Sized {
     /// comparison of two masks (`p_a.mask().cmp(&p_b.mask())`, `p_a.mask() < p_b.mask()`): the
     /// extractor rewrites both forms into this method (rule R12) because `Self::R: PrimInt` has no
     /// Verus model; its contract is the order on `mask_val`.
+    /// `p_a.mask() < p_b.mask()` (rule R12)
+    fn mask_lt(&self, other: &Self) -> (r: bool)
+        ensures r == (self.mask_val() < other.mask_val());
+
     fn mask_cmp(&self, other: &Self) -> (r: core::cmp::Ordering)
         ensures
             (r is Less) == (self.mask_val() < other.mask_val()),
